@@ -33,7 +33,7 @@ def shards_for(run: Run) -> list[dict]:
         )
         shards.append(
             {
-                "prop": PROP, "judges": JUDGES, "modes": MODES, "source": "random", "profile": "stack", "profile_overrides": {"push_empty": True},
+                "prop": PROP, "judges": JUDGES, "modes": MODES, "source": "random", "profile": "stack", "profile_overrides": {"push_empty": True, "zero_width_stack_reps": True},
                 "seed": seed_int(PROP, run.seed, "pe", j), "count": run.pick(30, 400), "cap": run.pick(200, 500), "maxlen": 5, "sample_at": 10**9,
             }
         )
